@@ -277,8 +277,8 @@ fn guarded(case: &LogCase) -> Result<LogStats, String> {
 
 pub fn worker(ctx: &WorkerCtx) -> WorkerResult {
     let (cases, fam_share) = match ctx.tier {
-        Tier::Quick => (3000u64, 8usize),
-        Tier::Thorough => (100_000u64, 1usize),
+        Tier::Quick => (30_000u64, 4usize),
+        Tier::Thorough => (400_000u64, 1usize),
     };
     let cases = std::env::var("VERIF_CASES").ok().and_then(|s| s.parse().ok()).unwrap_or(cases);
     let mut r = WorkerResult::default();
